@@ -13,10 +13,22 @@ for name in ('translate_callsites', 'translate_registry', 'translate_json', 'tra
         pass
 
 
-def generate_all():
+# translators that read the *source text* of particular functions serve one property each; when such a
+# translator cannot read a rewritten source, that is reported by that property's check only
+ONLY_FOR = {'translate_callsites': {'C12'}, 'translate_registry': {'C11'}}
+
+
+def generate_all(prop=None):
     changed = []
     for g in GENERATORS:
-        changed += g.generate()
+        owners = ONLY_FOR.get(g.__name__)
+        if owners is not None and prop is not None and prop not in owners:
+            try:
+                changed += g.generate()
+            except Exception:  # noqa  (not this property's business)
+                pass
+        else:
+            changed += g.generate()
     return changed
 
 
